@@ -78,6 +78,7 @@ CLAIMED["C04"] = {
             "Builder methods store their arguments unchanged (no clamp / filter / rounding / arithmetic between argument and field), and builder methods that rebuild the parameter struct (with_rng) carry every field over from self. "
             "An unsigned parameter is not subtracted from before it is tested (overflow instead of the documented error). "
             "Hand-written Clone impls of the parameter sets and models copy every field (derived ones do by construction), no builder method resets another user-settable field to a value that does not depend on its argument, and builder methods that rebuild the struct carry every field; the dominating check may be `check_ref()?`, a map/and_then on its result, the Ok arm of a match on it, or an Err arm that returns first. "
+            "Constructor shortcuts (`Model::params(..)`) build the same value as the constructor they forward to: a builder method applied with an argument of the shortcut's own choosing must store what the constructor stores anyway. "
             "Not decided: behaviour of training on valid parameters.",
     "design_ref": "DESIGN.md section 4, C04",
     "note": "Trusted: rustc resolution/typeck, the fact dump, the documented range table frozen in rules/c04.py (one source reference per row). NaN/infinite parameter values are outside the claim, as in the property.",
@@ -164,6 +165,9 @@ CLAIMED["C12"] = {
             "quotient has an unguarded exponential of the score above and below the line. For every link, inverse_derivative is the symbolic derivative of inverse (element-wise maps read into rational functions over x, exp, ln and differentiated by a small computer algebra), so the chain rule in the gradient differentiates the function the cost evaluates. "
             "Every value path of the unit-deviance derivative is computed from the predicted mean; the L-BFGS solver is configured with the gradient tolerance only (no cost-change stopping rule). "
             "The Tweedie target-range error is returned unconditionally (not under a configuration switch such as fit_intercept); max folds of the shifts start from their identity element. Hand-written Clone impls of the parameter sets and models copy every field (derived ones do by construction), no builder method resets another user-settable field to a value that does not depend on its argument, and builder methods that rebuild the struct carry every field; no generic-float / f64 value is narrowed to f32 and stored, and no f32 arithmetic over converted values is widened back into the generic float. "
+            "The Tweedie support test admits no non-finite target: its predicate is evaluated symbolically at +inf, -inf and NaN (it admitted +inf: repaired). "
+            "The user-supplied start vector of the logistic solvers is either normalised to the standard layout before it reaches the solver, or no objective function applies a layout-fallible operation (into_shape / as_slice + unwrap) to the parameter it receives (loss and gradient did: repaired). "
+            "No two variants of the link dispatchers share one implementing type (each arm calls the implementation named after its variant); `TweedieRegressor::params()` builds what `TweedieRegressorParams::new()` builds. "
             "Not decided: stationarity of the "
             "returned point beyond these necessary conditions, numeric range of probabilities.",
     "design_ref": "DESIGN.md section 4, C12",
